@@ -226,7 +226,7 @@ class PropertyDescriptorRelation(PredicateClassRelation):
             self.__class__(
                 self.source,
                 nxt_relation.target,
-                nxt_relation.wrapped_field,
+                self.wrapped_field,
                 inferred=True,
             ).add_to_graph()
 
